@@ -195,6 +195,7 @@ class Run:
 
 
 EXPLORE_BUDGET_S = float(os.environ.get("PFZ_EXPLORE_BUDGET", "300"))
+_TIMEOUTS = [0]
 
 
 def explore(fn, max_runs=200000):
@@ -204,9 +205,13 @@ def explore(fn, max_runs=200000):
     script = []
     n = 0
     t0 = time.time()
+    # once one exploration of this process has run out of time, the rest get a tenth of the budget: a construct that explodes
+    # usually does so in every opcode arm, and the check must fail closed in bounded time
+    budget = EXPLORE_BUDGET_S if not _TIMEOUTS[0] else max(5.0, EXPLORE_BUDGET_S / 10.0)
     while script is not None:
-        if time.time() - t0 > EXPLORE_BUDGET_S:
-            raise Unanalysable("exploration exceeds the time budget of %ds after %d paths (a loop whose trip count depends on symbolic data?)" % (EXPLORE_BUDGET_S, n))
+        if time.time() - t0 > budget:
+            _TIMEOUTS[0] += 1
+            raise Unanalysable("exploration exceeds the time budget of %ds after %d paths (a loop whose trip count depends on symbolic data?)" % (budget, n))
         run = Run(script)
         try:
             res = fn(run)
@@ -255,6 +260,7 @@ class Interp:
         self.stack = []  # call stack of keys (for reports)
         self.guards = []  # live RefCell guards (borrow typestate)
         self.site = None
+        self.summ = None  # models.SummCtx while a loop over a symbolic string is being summarised
 
     # ---------------- helpers for models ----------------
     def where(self):
@@ -264,6 +270,8 @@ class Interp:
         return Unanalysable(what, self.where())
 
     def load(self, ref):
+        if self.summ is not None:
+            self.summ.on_load(self, ref)
         v = ref.box.v
         for step in ref.path:
             v = self.project(v, step)
@@ -303,6 +311,8 @@ class Interp:
         raise self.unanalysable("projection %r" % (step,))
 
     def store(self, ref, val):
+        if self.summ is not None:
+            self.summ.on_store(self, ref)
         if not ref.path:
             ref.box.v = val
             return
@@ -1031,6 +1041,8 @@ class Interp:
                     v = self.eval_operand(fr, t["o"])
                     bb = self.switch(v, t)
                 elif tk == "return":
+                    if self.summ is not None and self.summ.frame is fr:
+                        raise self.unanalysable("a loop over a symbolic string is left before its end (break / return inside the loop)")
                     rv = fr.locals[0].v
                     if rv is UNINIT:
                         rty = body["locals"][0]["ty"]
@@ -1074,6 +1086,8 @@ class Interp:
             self.depth -= 1
             self.stack.pop()
             self.frames.pop()
+            if self.summ is not None and self.summ.frame is fr:
+                self.summ = None
 
     def switch(self, v, t):
         targets = t["targets"]
@@ -1128,14 +1142,22 @@ class Interp:
         for cand in (rpath, f.get("path")):
             if cand and cand in self.prog.bodies and res.get("kind") in (None, "item", "closure_once_shim", "reify_shim"):
                 if cand in self.stubs:
+                    if self.summ is not None:
+                        raise self.unanalysable("summarised callee %s inside a loop over a symbolic string" % cand)
                     return self.stubs[cand](self, cand, argv)
                 m = self.models.local_override(cand)
                 if m is not None:
+                    if self.summ is not None:
+                        raise self.unanalysable("summarised callee %s inside a loop over a symbolic string" % cand)
                     return m(self, f, argv)
                 return self.call(cand, argv, substs=(res.get("args") if cand == rpath and res.get("args") is not None else f.get("args")))
         m = self.models.lookup(f)
         if m is not None:
+            if self.summ is not None:
+                self.summ.check_callee(self, f)
             return m(self, f, argv)
+        if self.summ is not None:
+            raise self.unanalysable("unmodelled callee %s inside a loop over a symbolic string" % f.get("path"))
         # a tuple-variant / tuple-struct constructor used as a function (`map_err(MyError::Io)`)
         pth = f.get("path") or ""
         if "::" in pth and res.get("kind") in (None, "item"):
